@@ -342,9 +342,12 @@ pub fn run_server(args: &Args) -> Out {
         for i in 0..3 {
             tenants.push(TenantSpec { id: format!("g{}", i), max_vectors: 100_000, max_qps: 40, enabled: true, admin: false });
         }
-        let cfg = SrvCfg { dim: 4, tenants, rate_limit: Some((100_000, global)), fsync: "none_is_refused_use_data_only", ..Default::default() };
+        // every third case leaves [rate_limit] disabled (the default): a tenant's own max_qps still applies
+        let rl_disabled = idx % 3 == 2;
+        let global = if rl_disabled { 100_000 } else { global };
+        let cfg = SrvCfg { dim: 4, tenants, rate_limit: if rl_disabled { None } else { Some((100_000, global)) }, fsync: "none_is_refused_use_data_only", ..Default::default() };
         let cfg = SrvCfg { fsync: "data_only", ..cfg };
-        let desc = json!({"check":"C19","leg":"server-admission","seed":args.seed,"case":idx,"tenant_max_qps":rate,"global":global,"connections":conns});
+        let desc = json!({"check":"C19","leg":"server-admission","seed":args.seed,"case":idx,"tenant_max_qps":rate,"global":global,"connections":conns,"rate_limit_section_enabled":!rl_disabled});
         let mut srv = Srv::new(cfg, &bin, rt.clone());
         if let Err(e) = srv.start() {
             out.inconclusive(format!("server start failed: {}", e));
